@@ -49,6 +49,7 @@ type httpWorld struct {
 	timeout             int  // vhostHTTPTimeout of the run (seconds)
 	tunnelMax           int  // byte budget of one tunnel direction
 	frontVhost          bool // the http vhost of frps (with its idle work-connection pool) is in front of the plugin
+	protected           bool // the proxies are password-protected: every request carries its route's credentials, which the backend sees too
 	twoRoutes           bool // a second proxy on the same host, routed by http user "alice", with its own backend
 }
 
@@ -122,6 +123,10 @@ func worldHTTP(w *World) {
 		pa["responseHeaders"] = map[string]any{"set": map[string]string{"X-Resp-Frp": "1"}}
 	}
 	hw.twoRoutes = w.KnobBool("second_route_by_user", 50)
+	hw.protected = w.KnobBool("password_protected", 35)
+	if hw.protected {
+		pa["httpUser"], pa["httpPassword"] = "carol", "pw-c"
+	}
 	proxies := []map[string]any{pa}
 	if hw.twoRoutes {
 		pb := map[string]any{}
@@ -129,6 +134,9 @@ func worldHTTP(w *World) {
 			pb[k] = v
 		}
 		pb["name"], pb["localPort"], pb["routeByHTTPUser"] = "web2", 9102, "alice"
+		if hw.protected {
+			pb["httpUser"], pb["httpPassword"] = "alice", "pw-a"
+		}
 		proxies = append(proxies, pb)
 	}
 	pdead := map[string]any{"name": "dead", "type": "http", "localIP": "127.0.0.1", "localPort": 9199, "customDomains": []string{"dead.example.test"}}
@@ -319,6 +327,14 @@ func worldHTTP(w *World) {
 	w.Nontrivial()
 }
 
+// credLine is the Authorization header line of a user of the (possibly password-protected) proxy "web".
+func (hw *httpWorld) credLine() string {
+	if !hw.protected {
+		return ""
+	}
+	return "Authorization: Basic " + base64.StdEncoding.EncodeToString([]byte("carol:pw-c")) + "\r\n"
+}
+
 func (hw *httpWorld) genCase(id int, r *simnet.Rand, maxBody int) *httpCase {
 	c := &httpCase{id: id}
 	req := &rawMsg{}
@@ -353,7 +369,14 @@ func (hw *httpWorld) genCase(id int, r *simnet.Rand, maxBody int) *httpCase {
 	req.Headers = append(req.Headers, hdr{[]string{"Host", "host", "HOST"}[r.Intn(3)], "a.example.test"})
 	req.Headers = append(req.Headers, hdr{"X-Case", fmt.Sprint(id)})
 	c.wantAt = "web"
-	if hw.twoRoutes && r.Intn(3) == 0 {
+	if hw.protected {
+		// the credentials are the user's own header: checked by frps and, like every end-to-end header, handed on
+		cred := "carol:pw-c"
+		if hw.twoRoutes && r.Intn(3) == 0 {
+			cred, c.wantAt = "alice:pw-a", "web2"
+		}
+		req.Headers = append(req.Headers, hdr{"Authorization", "Basic " + base64.StdEncoding.EncodeToString([]byte(cred))})
+	} else if hw.twoRoutes && r.Intn(3) == 0 {
 		// a request of http user alice belongs to the proxy routed by that user; any other user or none to the other
 		req.Headers = append(req.Headers, hdr{"Authorization", "Basic " + base64.StdEncoding.EncodeToString([]byte("alice:"+randToken(r, 6)))})
 		c.wantAt = "web2"
@@ -762,7 +785,7 @@ func (hw *httpWorld) streamProbe(addr string) {
 	}
 	defer conn.Close()
 	t0 := w.Net.Now()
-	fmt.Fprintf(conn, "GET /events HTTP/1.1\r\nHost: a.example.test\r\nX-Stream: %s\r\nAccept: text/event-stream\r\n\r\n", id)
+	fmt.Fprintf(conn, "GET /events HTTP/1.1\r\nHost: a.example.test\r\n%sX-Stream: %s\r\nAccept: text/event-stream\r\n\r\n", hw.credLine(), id)
 	br := bufio.NewReader(conn)
 	conn.SetReadDeadline(time.Now().Add(15 * time.Second))
 	var got strings.Builder
